@@ -186,10 +186,14 @@ def run_check(prop, tier, base_seed, workers=16, budget_s=None, replay=None,
         if r['index'] in seen and seen[r['index']] != d:
           mism.append(r['index'])
         seen.setdefault(r['index'], d)
-  if mism:
+  nondet = sorted(set(mism))
+  if nondet and (selftest_only or not any(r['violations'] for r in runs)):
     say(f'HARNESS-ERROR property={prop} nondeterministic digests for run '
-        f'indices {sorted(set(mism))[:10]}')
+        f'indices {nondet[:10]}')
     return 2
+  if nondet:
+    say(f'[{prop}] note: digests of run indices {nondet[:10]} differ between processes; the system under test is '
+        f'not a pure function of the scenario - see the violation(s) below')
   if selftest_only:
     say(f'[{prop}] determinism self-test: {self_done} re-executions, 0 mismatches')
     return 0
